@@ -60,7 +60,7 @@ pub fn strategy(big_weight: u32) -> impl Strategy<Value = Case> {
         1 => Just(0usize), 1 => Just(1usize), 3 => Just(LOW - 1), 4 => Just(LOW), 4 => Just(LOW + 1), 2 => Just(LOW + 4096), 2 => Just(2 * LOW),
         2 => (LOW - 64)..(LOW + 64), 1 => 1usize..(3 * LOW),
     ];
-    let big_lens = prop_oneof![Just(HIGH - 1), Just(HIGH), Just(HIGH + 1)];
+    let big_lens = prop_oneof![1 => Just(HIGH - 1), 1 => Just(HIGH), 2 => Just(HIGH + 1)];
     (
         target_class(),
         prop_oneof![(1000 - big_weight) => small_lens.prop_map(|l| (l, false)), big_weight => big_lens.prop_map(|l| (l, true))],
@@ -79,7 +79,8 @@ pub fn strategy(big_weight: u32) -> impl Strategy<Value = Case> {
             } else {
                 (method, target)
             };
-            let chunked = if big { chunked.map(|_| vec![1 << 20]) } else { chunked };
+            // the 100 MiB class: two thirds undeclared (chunked), where the limit is only found while the body arrives
+            let chunked = if big { if pattern % 3 != 0 { Some(vec![1 << 20]) } else { None } } else { chunked };
             Case { rec: Rec { uid_sel, helper_sel, is_root: uid_sel == 0, dest: DestSel::Imds }, method, target, len, pattern, chunked, key, prelude: if big { None } else { prelude } }
         })
 }
